@@ -24,6 +24,8 @@ def fam_defects():
         ("kd_loopvar_after_loop", L("for idx in range(3):\n    d1.Setting = idx\nd2.Setting = idx")),
         ("kd_for_rebinds_global", H + "idx = 7\nd0.Setting = idx\nwhile True:\n    for idx in range(3):\n        d1.Setting = idx\n    yield_()\n"),
         ("kd_runtime_negative_step", L("vs = 0 - 1 - d0.On\nfor idx in range(3, 0, vs):\n    d1.Setting = idx\nd2.On = 1")),
+        ("kd_alias_register_freed", H + "def fz(xn):\n    va = xn * 2\n    vb = va\n    d1.Setting = va\n    vc = xn + 5\n    vd = vc * 3\n    d3.Setting = vd + vc\n    return vb\n"
+                                    "while True:\n    d2.Setting = fz(d0.Setting)\n    d4.Setting = fz(1)\n    yield_()\n"),
         ("kd_range_bound_reassigned", L("vn = 3\nfor idx in range(vn):\n    vn = vn - 1\n    d1.Setting = idx")),
     ]
 
@@ -38,7 +40,7 @@ def c01_vectors(tier):
     return v
 
 
-def source_items(progs, vecs, maxn=4):
+def source_items(progs, vecs, maxn=4, adaptive=True):
     """progs: (name, src).  Returns (items for Equiv.tla, outside: {name: reason}, compile errors)"""
     conv, outside = [], {}
     for n, s in progs:
@@ -62,12 +64,15 @@ def source_items(progs, vecs, maxn=4):
                 nerr += 1
                 continue
             pb = ic10load.load(code)
+            # effect budget: at least one full round of the main loop (every effect instruction of the text once, calls repeat some)
+            neff = sum(1 for i in pb if i["op"] in ("s", "ss", "sb", "sbn", "sbs", "yield", "sleep", "putd", "clr", "clrd") or (i["op"] == "put" and i["a"] and i["a"][0] != ["d", "db"]))
+            maxn_case = max(maxn, min(12, neff + 2)) if adaptive else maxn
             pre, _post = CL.h1_streams(r)
             shp = set(sh)
             if pre is not None and any(fn and fi["emitted"] and not fi["inlined"] and not fi["is_constexpr"] for fn, fi in pre["functions"].items()):
                 shp.add("has_out_of_line_function")
             items.append({"name": n, "tag": cw.vec_name(v), "src": s, "b_text": code, "shapes": sorted(shp),
-                          "case": {"ast": a, "pb": pb, "dom": equiv.pick_dom(pb, pb), "maxn": maxn, "fuel": 4096},
+                          "case": {"ast": a, "pb": pb, "dom": equiv.pick_dom(pb, pb), "maxn": maxn_case, "fuel": 4096},
                           "sample": {"case": n, "variant": cw.vec_name(v), "source": s, "emitted": code}})
     return items, outside, nerr
 
@@ -484,17 +489,36 @@ def python_value(defn, call):
     return eval(call, env)
 
 
-def compile_retry(jobs, tries=4):
-    """compile; a job whose result says the helper process timed out (machine load) is tried again, alone"""
-    res = cw.compile_many(jobs)
-    for k, r in enumerate(res):
+def _compile_group(group):
+    """one worker compiles all jobs of a group one after another: jobs of a group share their constexpr calls, so the
+    helper process runs once (the implementation caches by helper text) - and a helper that missed the implementation's
+    1 s limit (machine load) is simply tried again"""
+    out = []
+    for job in group:
+        r = cw._compile(job)
         t = 0
-        while t < tries and isinstance(r["result"], dict) and CX_TIMEOUT in json.dumps(r["result"]):
-            time.sleep(0.3)
-            r = cw.compile_many([jobs[k]])[0]
-            res[k] = r
+        while t < 5 and isinstance(r["result"], dict) and CX_TIMEOUT in json.dumps(r["result"]):
+            time.sleep(0.2 + 0.3 * t)
+            r = cw._compile(job)
             t += 1
-    return res
+        out.append(r)
+    return out
+
+
+_cx_pool = None
+
+
+def compile_retry(jobs, group=1):
+    """compile constexpr programs: few workers (every compilation starts a helper interpreter whose import takes most of
+    the implementation's 1 s limit when many run at once), consecutive `group` jobs on the same worker"""
+    global _cx_pool
+    import multiprocessing as mp
+
+    if _cx_pool is None:
+        _cx_pool = mp.get_context("fork").Pool(5, initializer=cw._init)
+    groups = [jobs[k:k + group] for k in range(0, len(jobs), group)]
+    res = _cx_pool.map(_compile_group, groups, chunksize=1)
+    return [r for g in res for r in g]
 
 
 def check_c12(tier, t0):
@@ -508,7 +532,7 @@ def check_c12(tier, t0):
         keep = {n for n, _ in progs if n.endswith(("_0_stmt", "library", "libinner")) or "k8_" in n}
         rest = [p for p in progs if p[0] not in keep]
         rnd.shuffle(rest)
-        progs = [p for p in progs if p[0] in keep] + rest[:45]
+        progs = [p for p in progs if p[0] in keep] + rest[:24]
     vecs = [cw.REF, cw.opts(inline_functions=True), cw.opts(inline_functions=True, remove_labels=True, compact=True)]
     conv, outside = [], {}
     for n, s in progs:
@@ -520,7 +544,7 @@ def check_c12(tier, t0):
     if len(conv) < 20:
         raise MachineryError("constexpr family outside the converter: %s" % list(outside.items())[:3])
     jobs = [{"src": s, "options": v} for n, s, a in conv for v in vecs]
-    res = compile_retry(jobs)
+    res = compile_retry(jobs, group=len(vecs))
     items = []
     k = 0
     undecided = 0
@@ -553,6 +577,11 @@ def check_c12(tier, t0):
     forb = []
     for word, body in (("open", "return len(open('/etc/hostname').read())"), ("eval", "return eval('1 + 1')"), ("exec", "exec('zz = 1')\n    return 1")):
         forb.append((word, corpus.HEADER + "@constexpr\ndef kz(xa):\n    %s\nd0.Setting = kz(1)\n" % body))
+    # the forbidden name anywhere in the function: parameter default, nested expression, conditional branch, inner lambda
+    forb.append(("eval-default", corpus.HEADER + "@constexpr\ndef kz(xa, fn=eval):\n    return fn('40 + 2') + xa\nd0.Setting = kz(1)\n"))
+    forb.append(("open-default", corpus.HEADER + "@constexpr\ndef kz(xa, fo=open):\n    return xa\nd0.Setting = kz(1)\n"))
+    forb.append(("exec-nested", corpus.HEADER + "@constexpr\ndef kz(xa):\n    if xa > 5:\n        for ii in range(2):\n            exec('pass')\n    return xa\nd0.Setting = kz(1)\n"))
+    forb.append(("eval-lambda", corpus.HEADER + "@constexpr\ndef kz(xa):\n    ff = lambda t: eval(t)\n    return xa\nd0.Setting = kz(1)\n"))
     fres = compile_retry([{"src": s, "options": cw.REF} for _, s in forb])
     for (word, s), r in zip(forb, fres):
         if CL.code_of(r) is not None:
@@ -564,7 +593,7 @@ def check_c12(tier, t0):
     for n, d, call in WIDE:
         for form in ("d0.Setting = %s\n", "va = d1.Setting\nd0.Setting = %s\nd2.Setting = va\n"):
             wjobs.append((n, d, call, corpus.HEADER + "@constexpr\n" + d + form % call))
-    wres = compile_retry([{"src": s, "options": v} for n, d, call, s in wjobs for v in (cw.REF, cw.opts(compact=True))])
+    wres = compile_retry([{"src": s, "options": v} for n, d, call, s in wjobs for v in (cw.REF, cw.opts(compact=True))], group=2)
     k = 0
     for n, d, call, s in wjobs:
         for v in (cw.REF, cw.opts(compact=True)):
